@@ -44,6 +44,14 @@ M_ELL = "M-ELL: ell_opt(r0) is on the curve with z != 0 and in 2E; ell_opt ~ ell
 PROPS["C07"] = dict(units=["ark_elligator"], assumptions=[A_ARK2, M_ELL, C09_CONTRACT, A_WF],
     explanation="elligator_map == to_affine(ell_opt(r0)) (the specification's optimised step list, normalised by Projective::new); hash_to_curve == group sum of the two maps")
 
+for _p in ("C01", "C02", "C03", "C04", "C05", "C07", "C08"):
+    PROPS[_p]["units"] = list(PROPS[_p]["units"]) + ["min_element"]
+PROPS["C05"]["explanation"] += "; minimal build: both ladders (constant-time and variable-time) are proved by loop invariant for limb slices of any length: result ~ smul(limbs_val(le_bits), P)"
+PROPS["C12"] = dict(units=["ark_encoding", "ark_ops", "ark_elligator", "ark_element", "min_element"],
+    assumptions=[A_ARK1, A_ARK2, M_GROUP, M_DECAF, M_ELL, C09_CONTRACT, A_WF, A_STD, M_LE32,
+                 "te_add_min(p,q) = 4 * te_add(p,q) coordinatewise and spec_encode is invariant under projective scaling (M-GROUP / M-DECAF), so exact-formula contracts of the minimal build and normal-form contracts of the arkworks build denote the same group element"],
+    explanation="relational property decided by common specification: for every operation offered by both builds the arkworks unit and the minimal unit are verified against the same spec functions of preludes/curve_spec.rs (spec_decode, spec_encode, ell_opt, te_add, smul); byte-level results then agree")
+
 NOT_APPLICABLE = {
     "C15": "circuit shape / pinned Groth16 keys: the subject is the hidden ark_relations constraint store and binary key files; no pre/postcondition on a /repo function can state matrix equality across runs or SNARK verification (DESIGN.md C15)",
 }
